@@ -74,6 +74,8 @@ def main():
                 env["VERIF_BUDGET"] = budget
             if not in_place:
                 env["VERIF_REPO"] = target
+            # evidence of a run on a planted change must never replace the committed evidence
+            env["VERIF_EVIDENCE_DIR"] = "/tmp/sens_evidence_%d" % os.getpid()
             out = sh(sys.executable, os.path.join(ROOT, "run_check.py"), pid, tier, env=env)
         finally:
             sh("git", "-C", target, "checkout", "--", ".")
@@ -88,6 +90,9 @@ def main():
         print("%-40s %s %-14s %5.0fs  %s %s" % (name, pid, results[-1][2], results[-1][3], first[:90], nxt))
         sys.stdout.flush()
     # leave evidence files as a clean run would: re-running the checks is the caller's business
+    import shutil
+
+    shutil.rmtree("/tmp/sens_evidence_%d" % os.getpid(), ignore_errors=True)
     if not in_place:
         sh("git", "-C", "/repo", "worktree", "remove", "--force", scratch)
         sh("git", "-C", "/repo", "worktree", "prune")
